@@ -11,6 +11,11 @@ R4 the combined type-model enumeration has one distinct member per catalogue ent
 Minimality of the chosen size when an ordering step is present is NOT decided (list.sort under a partial order).
 """
 import ast
+
+from ..normalize import inline, local_env, expand, canon, ctext, conjuncts, branch_values, merge_outcomes, Unknown, builders, comp_builder, _enclosing
+from ..cfg import CFG
+from .. import flow
+from ..core import kwarg
 import re
 
 from ..core import AnalysisError, norm, loc, walk_no_nested, attr_chain, call_name
@@ -135,23 +140,60 @@ def run(prog, rep):
         if isinstance(n, ast.Call) and isinstance(n.func, ast.Name) and n.func.id in ('sorted', 'min') and n.args and \
                 cand_name in ast.unparse(n.args[0]):
             ordering = n
-    rets = [n for n in walk_no_nested(mp) if isinstance(n, ast.Return)]
     rep.instance('R2', f'{fq}: ordering step {norm(ordering) if ordering is not None else None}')
+
+    def ret_sink(st):
+        return st.value if isinstance(st, ast.Return) and st.value is not None else None
+    try:
+        routs = branch_values(mp.body, ret_sink, opaque=(cand_name,))
+    except Unknown as u:
+        raise AnalysisError(f'{fq}: not analysable: {u}')
+    rep.instance('R2', f'{fq}: returns {[(o.conds[-1:] , o.vtext) for o in routs]}')
+
+    def is_list_of(e, meth):
+        """list(<catalog>.keys()) / list(<catalog>.values()) / list(<catalog>) for keys"""
+        if isinstance(e, ast.Call) and isinstance(e.func, ast.Name) and e.func.id == 'list' and len(e.args) == 1:
+            a0 = e.args[0]
+            if isinstance(a0, ast.Call) and isinstance(a0.func, ast.Attribute) and a0.func.attr == meth and \
+                    isinstance(a0.func.value, ast.Call) and call_name(a0.func.value).endswith('read_catalog'):
+                return True
+            if meth == 'keys' and isinstance(a0, ast.Call) and call_name(a0).endswith('read_catalog'):
+                return True
+        return False
+
+    def first_candidate(e):
+        if isinstance(e, ast.Subscript) and isinstance(e.value, ast.Name) and e.value.id == cand_name and isinstance(e.slice, ast.Constant) and e.slice.value == 0:
+            return True
+        if isinstance(e, ast.Call) and isinstance(e.func, ast.Name) and e.func.id == 'min' and e.args and isinstance(e.args[0], ast.Name) and e.args[0].id == cand_name:
+            return True
+        if isinstance(e, ast.Subscript) and isinstance(e.value, ast.Call) and isinstance(e.value.func, ast.Name) and e.value.func.id == 'sorted' and \
+                e.value.args and isinstance(e.value.args[0], ast.Name) and e.value.args[0].id == cand_name and isinstance(e.slice, ast.Constant) and e.slice.value == 0:
+            return True
+        return False
+    first_ok = fallback_ok = False
     first_ret = None
-    fallback = None
-    for r in rets:
-        t = ast.unparse(r.value)
-        if f'{cand_name}[0]' in t or 'min(' in t:
-            first_ret = r
-        elif t.endswith('[-1]'):
-            fallback = r
-    rep.instance('R2', f'{fq}: returns {[norm(r) for r in rets]}')
-    if first_ret is None or 'keys[values.index(' not in ast.unparse(first_ret.value).replace(' ', '').replace('keys[values.index(', 'keys[values.index('):
+    for o in routs:
+        v = o.value
+        empty = f'not {cand_name}' in o.conds
+        nonempty = cand_name in o.conds
+        if isinstance(v, ast.Subscript) and is_list_of(v.value, 'keys'):
+            sl = v.slice
+            if isinstance(sl, ast.UnaryOp) and isinstance(sl.op, ast.USub) and isinstance(sl.operand, ast.Constant) and sl.operand.value == 1:
+                if empty:
+                    fallback_ok = True
+                continue
+            if isinstance(sl, ast.Call) and call_name(sl) == 'index' and is_list_of(sl.func.value, 'values') and sl.args and first_candidate(sl.args[0]):
+                if nonempty:
+                    first_ok = True
+                    first_ret = o.stmt
+    if not first_ok:
         rep.violation('R2', loc(imod, mp), fq, 'selected size is not the name of the first candidate',
                       'the returned name must be the key at the index of the first (ordered) candidate')
-    if ordering is not None and first_ret is not None and ordering.lineno > first_ret.lineno:
-        rep.violation('R2', loc(imod, ordering), fq, 'ordering after selection', 'candidates are ordered after the first was taken')
-    if fallback is None or ast.unparse(fallback.value) != 'keys[-1]':
+    if ordering is not None and first_ret is not None:
+        mcfg = CFG(mp)
+        if isinstance(ordering.func, ast.Attribute) and not flow.dominates(mcfg, ordering, first_ret):
+            rep.violation('R2', loc(imod, ordering), fq, 'ordering after selection', 'candidates are ordered after the first was taken')
+    if not fallback_ok:
         rep.violation('R2', loc(imod, mp), fq, 'fallback is not the last key',
                       'when no size satisfies the request the largest size (the last catalogue entry) must be returned')
     if ordering is None:
@@ -171,11 +213,6 @@ def run(prog, rep):
                           f'without ordering the candidates the first satisfying entry in file order is returned; for the '
                           f'request core/ram/disk={bad[1]} that is {bad[2]} {bad[3]} although {bad[0]} satisfies it and is '
                           f'smaller or equal in every dimension')
-    # guard: the two returns are separated by a non-emptiness test of the candidates
-    guard = [n for n in walk_no_nested(mp) if isinstance(n, ast.If) and cand_name in ast.unparse(n.test)]
-    if not guard:
-        rep.violation('R2', loc(imod, mp), fq, 'no emptiness test', 'the empty-candidates case is not distinguished')
-
     # ---- component catalogue ----
     comps = prog.data_file(COMPS)
     if not isinstance(comps, list) or not comps:
@@ -244,7 +281,21 @@ def run(prog, rep):
         idx = next(iter(idx_names), None)
     else:
         idx = next(iter(idx_names))
-    if idx:
+    enum_idx = None
+    it_ = loop.iter
+    if isinstance(it_, ast.Call) and isinstance(it_.func, ast.Name) and it_.func.id == 'enumerate' and isinstance(loop.target, ast.Tuple) and \
+            isinstance(loop.target.elts[0], ast.Name):
+        start = kwarg(it_, 'start') or (it_.args[1] if len(it_.args) > 1 else None)
+        enum_idx = (loop.target.elts[0].id, start)
+    if idx and enum_idx is not None and enum_idx[0] == idx:
+        rep.instance('R3', f'{gq}: index {idx} comes from enumerate(...) over the interfaces (start {norm(enum_idx[1]) if enum_idx[1] is not None else 0})')
+        if enum_idx[1] is not None and not (isinstance(enum_idx[1], ast.Constant) and enum_idx[1].value == 0):
+            rep.violation('R3', loc(cmod, loop), gq, f'{idx} not initialised to 0 before the loop',
+                          'the index that pairs caller-supplied ids/labels with interfaces must start at 0 before the loop')
+        if any(isinstance(n, (ast.Assign, ast.AugAssign)) and any(isinstance(x, ast.Name) and x.id == idx and isinstance(x.ctx, ast.Store) for x in ast.walk(n))
+               for n in ast.walk(loop) if n is not loop):
+            rep.violation('R3', loc(cmod, loop), gq, f'{idx} updated inside the loop', 'the index must be advanced exactly once per iteration, unconditionally')
+    elif idx:
         # initialised before the loop, in the same block
         blk = loop._parent.body
         pos = blk.index(loop)
@@ -267,6 +318,7 @@ def run(prog, rep):
             for u in uses:
                 if u.lineno > inc.lineno:
                     rep.violation('R3', loc(cmod, u), gq, norm(u), f'{norm(u)} is read after the index was advanced')
+    if idx:
         # each use guarded by its own `<param> is not None` and not nested under the other parameter's guard
         for u in uses:
             pname = u.value.id
@@ -289,15 +341,30 @@ def run(prog, rep):
                               f'{pname} alone has it silently ignored')
     # interface kind dispatch covers the catalogue types that have interfaces
     disp = {}
-    for n in ast.walk(loop):
-        if isinstance(n, ast.If) and 'cs.get_type()' in ast.unparse(n.test):
-            tnames = [a.attr for a in ast.walk(n.test) if isinstance(a, ast.Attribute) and
-                      isinstance(a.value, ast.Name) and a.value.id == 'ComponentType']
-            kinds = [a.attr for s in n.body for a in ast.walk(s) if isinstance(a, ast.Attribute) and
-                     isinstance(a.value, ast.Name) and a.value.id == 'InterfaceType']
-            for t in tnames:
-                if kinds:
-                    disp[t] = kinds[0]
+    aenv = {k_: v_ for k_, v_ in local_env(gc).items() if isinstance(v_, (ast.Name, ast.Attribute, ast.Subscript, ast.Call)) and
+            (not isinstance(v_, ast.Call) or call_name(v_) in ('get_type',))}
+
+    def types_of(cond):
+        """component types a (non-negated) condition selects"""
+        c = canon(expand(cond, aenv))
+        out = []
+        for cj in conjuncts(c):
+            if isinstance(cj, ast.Compare) and len(cj.ops) == 1 and isinstance(cj.ops[0], (ast.Eq, ast.In)) and \
+                    any(isinstance(x, ast.Call) and call_name(x) == 'get_type' for x in ast.walk(cj)):
+                out += [a.attr for a in ast.walk(cj) if isinstance(a, ast.Attribute) and isinstance(a.value, ast.Name) and a.value.id == 'ComponentType']
+        return out
+    for n in ast.walk(gc):
+        kinds = []
+        if isinstance(n, ast.Call) and call_name(n) == 'set_type' and n.args:
+            kinds = [a.attr for a in ast.walk(n.args[0]) if isinstance(a, ast.Attribute) and isinstance(a.value, ast.Name) and a.value.id == 'InterfaceType']
+        elif isinstance(n, ast.Assign) and isinstance(n.value, ast.Attribute) and isinstance(n.value.value, ast.Name) and n.value.value.id == 'InterfaceType':
+            kinds = [n.value.attr]
+        if not kinds:
+            continue
+        _, conds_ = _enclosing(n, gc)
+        for c_ in conds_:
+            for t in types_of(c_):
+                disp[t] = kinds[0]
     rep.instance('R3', f'{gq}: interface kind dispatch {disp}; catalogue types with interfaces {sorted(types_with_ifs)}')
     for t in sorted(types_with_ifs):
         if t not in disp:
@@ -310,7 +377,17 @@ def run(prog, rep):
                           f'{t} interfaces must be {want[t]} (C10 guardrails and link typing rely on it)')
     # speed from the row
     caps_calls = [n for n in ast.walk(loop) if isinstance(n, ast.Call) and isinstance(n.func, ast.Name) and n.func.id == 'Capacities']
-    bw_ok = any(any(k.arg == 'bw' and 'interfaces_dict[interface_name]' in ast.unparse(k.value) for k in c.keywords) for c in caps_calls)
+    row_vals = set()
+    tgt_names = [x.id for x in ast.walk(loop.target) if isinstance(x, ast.Name)]
+    if any(isinstance(c_, ast.Call) and call_name(c_) == 'items' for c_ in ast.walk(loop.iter)) and tgt_names:
+        row_vals.add(tgt_names[-1])
+
+    def from_row(e):
+        t = ast.unparse(e)
+        return any(isinstance(x, ast.Subscript) and 'interfaces_dict' in ast.unparse(x.value) for x in ast.walk(e)) or \
+            any(isinstance(x, ast.Name) and x.id in row_vals for x in ast.walk(e))
+    bw_ok = any(any(k.arg == 'bw' and isinstance(k.value, ast.Call) and isinstance(k.value.func, ast.Name) and k.value.func.id == 'int' and from_row(k.value)
+                    for k in c.keywords) for c in caps_calls)
     unit_ok = all(any(k.arg == 'unit' and ast.unparse(k.value) == 'units' for k in c.keywords) for c in caps_calls) and bool(caps_calls)
     rep.instance('R3', f'{gq}: capacities built by {[norm(c) for c in caps_calls]}')
     if not bw_ok or not unit_ok:
@@ -337,9 +414,45 @@ def run(prog, rep):
         rep.violation('R3', loc(cmod, gc), gq, 'lookup does not test main model and AlsoModels',
                       'the catalogue lookup must test the main model and the AlsoModels list')
     # R4 code side: enum built from every entry
-    pop = ccat.methods.get('populate_catalog_models_and_types')
-    ptxt = ast.unparse(pop)
-    if 'for c in catalog' not in ptxt or "c['Type']" not in ptxt or "c['Model']" not in ptxt or 'catalog[v - 1]' not in ptxt:
+    pop = inline(prog, ccat, ccat.methods.get('populate_catalog_models_and_types'), exclude=('__massage_name', '__read_catalog'))
+    penv = local_env(pop)
+    cat_names = {n.targets[0].id for n in walk_no_nested(pop) if isinstance(n, ast.Assign) and isinstance(n.targets[0], ast.Name) and
+                 isinstance(n.value, ast.Call) and call_name(n.value).endswith('read_catalog')}
+    ok4 = bool(cat_names)
+    # (a) one member per entry: a name built from Type and Model of every entry, numbered from 1
+    named = False
+    for nm, bl in builders(pop).items():
+        for b_ in bl:
+            if b_.kind != 'dict' or not b_.gens:
+                continue
+            its = ' '.join(ast.unparse(i) for _, i in b_.gens)
+            subs = {x.slice.value for x in ast.walk(expand(b_.key, penv)) if isinstance(x, ast.Subscript) and isinstance(x.slice, ast.Constant)}
+            if any(c_ in its for c_ in cat_names) and {'Type', 'Model'} <= subs and not b_.conds:
+                named = True
+                # numbering from 1: enumerate(catalog, start=1) or a counter initialised to 1 and advanced by 1
+                one = False
+                for _, i in b_.gens:
+                    if isinstance(i, ast.Call) and isinstance(i.func, ast.Name) and i.func.id == 'enumerate':
+                        st_ = kwarg(i, 'start') or (i.args[1] if len(i.args) > 1 else None)
+                        one = isinstance(st_, ast.Constant) and st_.value == 1
+                if not one and isinstance(b_.elt, ast.Name):
+                    inits = [n for n in walk_no_nested(pop) if isinstance(n, ast.Assign) and any(isinstance(t, ast.Name) and t.id == b_.elt.id for t in n.targets)
+                             and isinstance(n.value, ast.Constant)]
+                    incs = [n for n in ast.walk(pop) if isinstance(n, ast.AugAssign) and isinstance(n.target, ast.Name) and n.target.id == b_.elt.id and
+                            isinstance(n.op, ast.Add) and isinstance(n.value, ast.Constant) and n.value.value == 1]
+                    one = bool(inits) and inits[0].value.value == 1 and len(incs) == 1
+                ok4 = ok4 and one
+    ok4 = ok4 and named
+    # (b) every member is mapped back to its own entry: Map[<member>] = catalog[<value> - 1]
+    mapped = False
+    for n in ast.walk(pop):
+        if isinstance(n, ast.Assign) and isinstance(n.targets[0], ast.Subscript) and ast.unparse(n.targets[0].value) == 'ComponentModelTypeMap':
+            v = n.value
+            if isinstance(v, ast.Subscript) and isinstance(v.value, ast.Name) and v.value.id in cat_names and isinstance(v.slice, ast.BinOp) and \
+                    isinstance(v.slice.op, ast.Sub) and isinstance(v.slice.right, ast.Constant) and v.slice.right.value == 1:
+                mapped = True
+    rep.instance('R4', f'populate_catalog_models_and_types: one member per entry numbered from 1: {ok4}; mapped back to catalog[value - 1]: {mapped}')
+    if not ok4 or not mapped:
         rep.violation('R4', loc(cmod, pop), 'ComponentCatalog.populate_catalog_models_and_types', 'enumeration shape',
                       'the type-model enumeration must have one member per catalogue entry mapped back to that entry')
 
